@@ -503,6 +503,7 @@ let rd_sstmt () : sstmt =
   | "LET" -> let x = cs () in SLet (x, rd_expr ())
   | "ROSTER" -> let e = rd_expr () in SRoster (e, n_of_int (tint ()))
   | "MAPSTRIP" -> SMapStrip (rd_expr ())
+  | "MAPPREFIX" -> SMapPrefix (rd_expr ())
   | t -> failwith ("summary: bad stmt token " ^ t)
 let rd_stmt () : stmt =
   match tok () with
